@@ -11,6 +11,8 @@ int <power-list> <dt> <weight>          -> ok | err value
 read                                    -> ok <image-list>            (noiseless: `step`)
                                            ok <image-list> off|on     (noisy: `pStep`; the flag is `PSt.off` before the read-out)
                                            ok random off|on           (noisy with photon or read noise on)
+tint input|foreign|plain                the grid label of the power handed to integrate (`tStep`)   -> ok
+tread                                   -> ok detector|input|foreign   (label of the image read out)
 
 reference-level model of the noiseless detector (`rStep`; a handle is the position in the list of references
 handed to the caller, counted from 0 in the order `ralloc` / `rread` hand them out):
@@ -33,6 +35,7 @@ structure St where
   st : Detector.St Rat := {}
   pst : PSt Rat := { flat := [], dark := [], sigma := [] }
   rst : RSt Rat := {}
+  tst : TSt := {}
 
 def showObs : Obs Rat → String
   | .done => "ok"
@@ -79,6 +82,22 @@ def step (st : St) : List String → St × String
     | some p, some dt, some w => apply st (.integrate p dt w)
     | _, _, _ => (st, "bad-op")
   | ["read"] => apply st .readOut
+  | ["tint", p] =>
+    let p? : Option PTag := match p with
+      | "input" => some .onInput
+      | "foreign" => some .onForeign
+      | "plain" => some .plain
+      | _ => none
+    match p? with
+    | some p => ({ st with tst := (tStep st.tst (.integrate p)).1 }, "ok")
+    | none => (st, "bad-op")
+  | ["tread"] =>
+    let r := tStep st.tst .readOut
+    ({ st with tst := r.1 }, match r.2 with
+      | some .detector => "ok detector"
+      | some .input => "ok input"
+      | some .foreign => "ok foreign"
+      | none => "bad-op")
   | ["ralloc", v] =>
     if st.kind != .noiseless then (st, "bad-op") else
     match parseRatList? v with
